@@ -129,6 +129,10 @@ func init() {
 		fr.i.path.obs[a[0].(string)] = nativeSprint(fr, v)
 		return nil
 	}
+	externals[zz+"IntMode"] = func(fr *frame, a []value) value {
+		fr.i.path.intMode = a[0].(bool)
+		return nil
+	}
 	externals[zz+"Symbolic"] = func(fr *frame, a []value) value { return true }
 	externals[zz+"Output"] = func(fr *frame, a []value) value { return fr.i.path.out.String() }
 }
